@@ -41,7 +41,73 @@ CHARS_INV = {v: k for k, v in CHARS.items()}
 
 
 # --------------------------------------------------------------------------- abstract <-> numpy
-def to_numpy(A):
+def apply_rep(a, rep):
+    """The same values in another memory representation (BcifEncoding.tla, Reps)."""
+    import numpy as np
+
+    n = len(a)
+    if rep == "native":
+        return a
+    if rep == "swapped":
+        return a.astype(a.dtype.newbyteorder("S"))
+    if rep in ("strided", "foreign"):
+        step = 2 if rep == "strided" else 3
+        src = a.astype(a.dtype.newbyteorder("S")) if rep == "foreign" else a
+        big = np.empty(step * n + 1, dtype=src.dtype)
+        for off in range(step):                      # the gaps hold other values of the array, not zeros
+            big[off::step][:n] = np.roll(src, off + 1) if n else src
+        big[1::step][:n] = src
+        view = big[1::step][:n]
+        if rep == "foreign":
+            view.flags.writeable = False
+        return view
+    if rep == "reversed":
+        return a[::-1].copy()[::-1]
+    if rep == "readonly":
+        r = a.copy()
+        r.flags.writeable = False
+        return r
+    if rep == "unaligned":
+        buf = np.zeros(n * a.dtype.itemsize + 1, dtype=np.uint8)
+        u = buf[1:].view(a.dtype)
+        u[:] = a
+        return u
+    if rep == "wide":
+        return a.astype(np.int64 if a.dtype.kind == "i" else np.uint64)
+    if rep == "list":
+        return a.tolist()
+    raise ValueError(rep)
+
+
+def reps_of(A):
+    """BcifEncoding.tla RepsOf, for the generators of recorded runs (TLC checks the membership: NOTDOM)."""
+    t = A["t"]
+    width = {1: 1, 4: 1, 2: 2, 5: 2}.get(t, 4)
+    r = ["native", "strided", "reversed", "readonly"]
+    if t == STR_T or width > 1:
+        r += ["swapped", "foreign"]
+    if t != STR_T and width > 1:
+        r += ["unaligned"]
+    if t in (3, 6):
+        r += ["wide"]
+    if t in (3, 33, STR_T) and A["v"]:
+        r += ["list"]
+    return r
+
+
+def rep_safe(chain, A, rep):
+    """BcifEncoding.tla Dom_RepSafe: the INT_MIN values of the recorded uint64 Delta defect are not packed."""
+    if not (chain and chain[0][0] == "DE" and A["t"] == 6 and rep == "wide" and A["v"]):
+        return True
+    og = chain[0][2][0] if chain[0][2] else A["v"][0]
+    return not (any(v < og for v in A["v"]) and any(e[0] == "IP" for e in chain))
+
+
+def to_numpy(A, rep="native"):
+    return apply_rep(_to_numpy(A), rep)
+
+
+def _to_numpy(A):
     import numpy as np
 
     t, v = A["t"], A["v"]
@@ -169,7 +235,7 @@ def write_read(data):
     return ser, BinaryCIFData.deserialize(msgpack.unpackb(packed, use_list=True, raw=False))
 
 
-def run_chain(A, chain):
+def run_chain(A, chain, rep="native"):
     """-> dict(oc, B, ser_eq, data_eq, bytes, chain2)"""
     import warnings
     from biotite.structure.io.pdbx import BinaryCIFData
@@ -179,7 +245,7 @@ def run_chain(A, chain):
     with warnings.catch_warnings():
         warnings.simplefilter("ignore")
         try:
-            arr = to_numpy(A)
+            arr = to_numpy(A, rep)
             encs = [mk_encoding(e) for e in chain]
             d = BinaryCIFData(arr, encs)
             ser, d2 = write_read(d)
@@ -197,7 +263,7 @@ def run_chain(A, chain):
     return out
 
 
-def run_compress(A, T):
+def run_compress(A, T, rep="native"):
     import warnings
     from biotite.structure.io.pdbx import BinaryCIFData, compress
     import biotite.structure.io.pdbx as px
@@ -206,7 +272,7 @@ def run_compress(A, T):
     with warnings.catch_warnings():
         warnings.simplefilter("ignore")
         try:
-            c = compress(BinaryCIFData(to_numpy(A)), float_tolerance=1.0 / T)
+            c = compress(BinaryCIFData(to_numpy(A, rep)), float_tolerance=1.0 / T)
             _ser, d2 = write_read(c)
         except Exception:  # noqa: BLE001
             return out
@@ -238,7 +304,7 @@ def _on_vtalrm(_sig, _frm):
     raise _Diverges()
 
 
-def sci_to_numpy(A):
+def sci_to_numpy(A, rep="native"):
     """Arr(t, [k, m, p]) -> numpy array: the nearest float of m * 10^p."""
     import numpy as np
 
@@ -249,7 +315,7 @@ def sci_to_numpy(A):
             out.append(float(Fraction(x["m"]) * Fraction(10) ** x["p"]))      # correctly rounded
         else:
             out.append({"nan": float("nan"), "pinf": float("inf"), "ninf": float("-inf")}[k])
-    return np.array(out, dtype=np.float64).astype(TYPES[A["t"]])
+    return apply_rep(np.array(out, dtype=np.float64).astype(TYPES[A["t"]]), rep)
 
 
 def sci_project(arr, A):
@@ -278,7 +344,7 @@ def sci_project(arr, A):
     return {"t": 32 if arr.dtype.name == "float32" else 33, "v": out}
 
 
-def run_compress_sci(A, T):
+def run_compress_sci(A, T, rep="native"):
     """compress(BinaryCIFData(A), 1/T) -> serialize -> deserialize, under a CPU-time limit."""
     import math
     import signal
@@ -288,7 +354,7 @@ def run_compress_sci(A, T):
     import biotite.structure.io.pdbx as px
 
     out = {"oc": "Rejected", "B": {"t": 0, "v": []}, "packed": "Rejected", "hasFP": False, "d": 0}
-    arr = sci_to_numpy(A)
+    arr = sci_to_numpy(A, rep)
     old = signal.signal(signal.SIGVTALRM, _on_vtalrm)
     with warnings.catch_warnings():
         warnings.simplefilter("ignore")
@@ -322,15 +388,15 @@ def run_compress_sci(A, T):
     return out
 
 
-def sci_event(A, T):
-    r = run_compress_sci(A, T)
-    return {"kind": "compressx", "A": A, "T": T, "oc": r["oc"], "B": r["B"], "packed": r["packed"],
+def sci_event(A, T, rep="native"):
+    r = run_compress_sci(A, T, rep)
+    return {"kind": "compressx", "A": A, "T": T, "rep": rep, "oc": r["oc"], "B": r["B"], "packed": r["packed"],
             "hasFP": r["hasFP"], "d": r["d"]}
 
 
-def int_compress_event(A, T):
-    r = run_compress(A, T)
-    return {"kind": "compress", "A": A, "T": T, "chain": r["chain"], "hasFP": r["hasFP"], "d": r["d"],
+def int_compress_event(A, T, rep="native"):
+    r = run_compress(A, T, rep)
+    return {"kind": "compress", "A": A, "T": T, "rep": rep, "chain": r["chain"], "hasFP": r["hasFP"], "d": r["d"],
             "oc": r["oc"], "B": r["B"]}
 
 
@@ -340,11 +406,12 @@ def exec_compress_cases(item):
 
     events = []
     for case in item["cases"]:
-        progress({"fam": case["fam"], "A": case["arr"], "T": case["tol"]})
-        if case["fam"] == "sci":
-            events.append(sci_event(case["arr"], case["tol"]))
-        else:
-            events.append(int_compress_event(case["arr"], case["tol"]))
+        for rep in case["reps"]:
+            progress({"fam": case["fam"], "A": case["arr"], "T": case["tol"], "rep": rep})
+            if case["fam"] == "sci":
+                events.append(sci_event(case["arr"], case["tol"], rep))
+            else:
+                events.append(int_compress_event(case["arr"], case["tol"], rep))
     return {"events": events}
 
 
@@ -368,10 +435,14 @@ def exec_cases(item):
 
     mism = []
     n = formdiff = paramdiff = 0
-    for case in item["cases"]:
-        progress({"chain": case["chain"], "arr": case["arr"]})
-        r = run_chain(case["arr"], case["chain"])
+    per_rep = {}
+    # the specification's outcome and values do not depend on the representation of the array:
+    # one expectation per case, executed under every member of reps
+    for case, rep in ((c, r) for c in item["cases"] for r in c["reps"]):
+        progress({"chain": case["chain"], "arr": case["arr"], "rep": rep})
+        r = run_chain(case["arr"], case["chain"], rep)
         n += 1
+        per_rep[rep] = per_rep.get(rep, 0) + 1
         exp = case["exp"]
         ok = (r["oc"] == "ok" and _accepted(case, r["B"]) and r["ser_eq"]) if exp == "ok" else r["oc"] == "Rejected"
         if ok:
@@ -382,11 +453,102 @@ def exec_cases(item):
                 if r["chain2"] is not None and r["chain2"] != form["e"]:
                     paramdiff += 1
             continue
-        mism.append({"kind": "case", "chain": case["chain"], "A": case["arr"], "kb": case["kb"],
-                     "known_shape": bool(case["kb"]) and exp == "Rejected" and r["oc"] == "ok",
+        kbr = [k for rr, k in case["kbrep"] if rr == rep]      # recorded classes of this representation only
+        mism.append({"kind": "case", "chain": case["chain"], "A": case["arr"], "rep": rep, "kb": case["kb"] + kbr,
+                     "known_shape": (bool(case["kb"]) and exp == "Rejected" and r["oc"] == "ok")
+                     or (bool(kbr) and exp == "ok" and r["oc"] == "ok"),
                      "expected": {"oc": exp, "accept": case["acc"] if exp == "ok" else []},
                      "observed": {"oc": r["oc"], "B": r["B"], "ser_eq": r["ser_eq"]}})
-    return {"mismatch": mism, "n": n, "formdiff": formdiff, "paramdiff": paramdiff}
+    return {"mismatch": mism, "n": n, "formdiff": formdiff, "paramdiff": paramdiff, "per_rep": per_rep}
+
+
+# --------------------------------------------------------------------------- columns with histories
+def _op_dtype(stored, dt):
+    """The dtype argument of as_array for the choice dt (BcifColumn.tla, TargetOf)."""
+    import numpy as np
+
+    if dt == "none":
+        return None
+    if dt == "same":
+        return stored
+    if dt == "str":
+        return str
+    if dt == "kind":
+        return {"i1": np.int16, "i2": np.int32, "i4": np.int64, "u1": np.uint16, "u2": np.uint32, "u4": np.uint16,
+                "f4": np.float64, "f8": np.float32}.get(stored.str[1:], "U8")
+    return np.float64 if stored.kind in "iu" else np.int32          # cross
+
+
+def apply_read_op(col, op):
+    """One read access of a column; -> "ok" / "Rejected" (not judged: only the column afterwards is)."""
+    import warnings
+    import numpy as np
+    import biotite.structure.io.pdbx as px
+
+    name, dt, fill = op
+    with warnings.catch_warnings():
+        warnings.simplefilter("ignore")
+        try:
+            if name == "as_array":
+                dtype = _op_dtype(col.data.array.dtype, dt)
+                target = np.dtype(col.data.array.dtype if dtype is None else dtype)
+                mv = None if not fill else ("-" if target.kind == "U" else -1.0 if target.kind == "f" else -1)
+                col.as_array(dtype, mv)
+            elif name == "as_item":
+                col.as_item()
+            elif name == "serialize":
+                col.serialize()
+            elif name == "compress":
+                px.compress(col)
+            elif name == "write":
+                px.BinaryCIFFile({"b": px.BinaryCIFBlock({"c": px.BinaryCIFCategory({"x": col})})}).write(io.BytesIO())
+            else:
+                raise KeyError(name)
+        except KeyError:
+            raise
+        except Exception:  # noqa: BLE001
+            return "Rejected"
+    return "ok"
+
+
+def _project_col(column):
+    return {"d": from_numpy(column.data.array),
+            "m": [] if column.mask is None else [[int(x) for x in column.mask.array.tolist()]]}
+
+
+def run_column(C, hist):
+    """Build the column, perform the accesses; -> the column in memory and as read back from a written file."""
+    import biotite.structure.io.pdbx as px
+
+    col = px.BinaryCIFColumn(px.BinaryCIFData(to_numpy(C["d"])),
+                             None if not C["m"] else px.BinaryCIFData(to_numpy({"t": 4, "v": C["m"][0]})))
+    ocs = [apply_read_op(col, op) for op in hist]
+    out = {"ocs": ocs, "mem": _project_col(col), "file": None}
+    try:
+        buf = io.BytesIO()
+        px.BinaryCIFFile({"b": px.BinaryCIFBlock({"c": px.BinaryCIFCategory({"x": col})})}).write(buf)
+        buf.seek(0)
+        out["file"] = _project_col(px.BinaryCIFFile.read(buf)["b"]["c"]["x"])
+    except Exception as e:  # noqa: BLE001
+        out["file"] = {"error": type(e).__name__}
+    return out
+
+
+def exec_column_cases(item):
+    from harness.tlabind.pool import progress
+
+    mism, n, ocs = [], 0, {}
+    for case in item["cases"]:
+        progress({"col": case["col"], "hist": case["hist"]})
+        r = run_column(case["col"], case["hist"])
+        n += 1
+        for op, oc in zip(case["hist"], r["ocs"]):
+            key = f"{op[0]}:{oc}"
+            ocs[key] = ocs.get(key, 0) + 1
+        if r["mem"] != case["exp"] or r["file"] != case["exp"]:
+            mism.append({"kind": "column", "col": case["col"], "hist": case["hist"], "sit": case["sit"],
+                         "expected": case["exp"], "observed": r})
+    return {"mismatch": mism, "n": n, "ocs": ocs}
 
 
 def warmup():
@@ -535,8 +697,9 @@ def gen_trace(item):
             t = rng.choice([32, 33])
             A = _rand_sci_array(rng, t, max(n, 1) if rng.random() < 0.9 else 2)
             T = rng.choice([10, 100, 1000, 10000] + ([100000, 1000000] if t == 33 else []))
-            progress({"kind": kind, "A": A, "T": T})
-            events.append(sci_event(A, T))
+            rep = rng.choice(reps_of(A))
+            progress({"kind": kind, "A": A, "T": T, "rep": rep})
+            events.append(sci_event(A, T, rep))
             continue
         if family == "int" and kind == "compress" and rng.random() < 0.5:
             # arrays on which one of the candidate chains of compress() clearly wins:
@@ -617,8 +780,9 @@ def gen_trace(item):
             chain = [["SA", st, de, oe]]
         progress({"kind": kind, "A": A, "chain": chain})
         if kind == "chain":
-            r = run_chain(A, chain)
-            events.append({"kind": "chain", "A": A, "chain": chain, "oc": r["oc"], "B": r["B"],
+            rep = rng.choice([x for x in reps_of(A) if rep_safe(chain, A, x)])
+            r = run_chain(A, chain, rep)
+            events.append({"kind": "chain", "A": A, "chain": chain, "rep": rep, "oc": r["oc"], "B": r["B"],
                            "ser_eq": r["ser_eq"], "data_eq": r["data_eq"]})
         else:
             if family == "float":
@@ -635,17 +799,23 @@ def gen_trace(item):
                 A = {"t": 6, "v": [min(v, 2 ** 29) for v in A["v"]]}
             if len(A["v"]) == 0:
                 continue                                 # compress() of an empty array is refused (min of nothing)
-            r = run_compress(A, T)
-            events.append({"kind": "compress", "A": A, "T": T, "chain": r["chain"], "hasFP": r["hasFP"],
+            rep = rng.choice(reps_of(A))
+            r = run_compress(A, T, rep)
+            events.append({"kind": "compress", "A": A, "T": T, "rep": rep, "chain": r["chain"], "hasFP": r["hasFP"],
                            "d": r["d"], "oc": r["oc"], "B": r["B"]})
     return {"events": events}
 
 
+READ_OPS = [["as_array", dt, fill] for dt in ("none", "same", "kind", "cross", "str") for fill in (False, True)] + [
+    [op, "none", False] for op in ("as_item", "serialize", "compress", "write")]
+
+
 def _file_event(rng):
-    import numpy as np
+    """A file with columns in random memory representations; read accesses; write -> read; read accesses on the
+    file that was read; write -> read."""
     import biotite.structure.io.pdbx as px
 
-    cin = []
+    cin, reps = [], []
     cats = {}
     n = rng.randint(1, 6)
     for j in range(rng.randint(1, 4)):
@@ -658,28 +828,55 @@ def _file_event(rng):
             A["v"] = [x if x["k"] != "nan" else _fin(0) for x in A["v"]]     # NaN != NaN in numpy equality
         else:
             A = {"t": STR_T, "v": [[rng.choice("abc") for _ in range(rng.randint(0, 3))] for _ in range(n)]}
-        M = [] if rng.random() < 0.5 else [{"t": 4, "v": [rng.choice([0, 0, 1, 2]) for _ in range(n)]}]
+        M = [] if rng.random() < 0.4 else [{"t": 4, "v": [rng.choice([0, 0, 1, 2]) for _ in range(n)]}]
         name = f"k{j}"
+        rp = [rng.choice(reps_of(A)), rng.choice(reps_of(M[0])) if M else "native"]
         cin.append({"name": name, "A": A, "M": M})
-        cats[name] = px.BinaryCIFColumn(px.BinaryCIFData(to_numpy(A)),
-                                        None if not M else px.BinaryCIFData(to_numpy(M[0])))
+        reps.append(rp)
+        cats[name] = px.BinaryCIFColumn(px.BinaryCIFData(to_numpy(A, rp[0])),
+                                        None if not M else px.BinaryCIFData(to_numpy(M[0], rp[1])))
     f = px.BinaryCIFFile({"b": px.BinaryCIFBlock({"c": px.BinaryCIFCategory(cats)})})
-    try:
+
+    def accesses(file):
+        hist = []
+        for _ in range(rng.choice([0, 1, 2, 3])):
+            j = rng.randrange(len(cin))
+            op = rng.choice(READ_OPS)
+            apply_read_op(file["b"]["c"][cin[j]["name"]], op)
+            hist.append([j + 1, op])
+        return hist
+
+    def written(file):
         buf = io.BytesIO()
-        f.write(buf)
+        file.write(buf)
         buf.seek(0)
         g = px.BinaryCIFFile.read(buf)
         cat = g["b"]["c"]
         cout = [{"name": k, "A": from_numpy(cat[k].data.array),
                  "M": [] if cat[k].mask is None else [from_numpy(cat[k].mask.array)]} for k in cat]
-        eq = bool(g == f) and bool(f == g)
+        return g, cout, bool(g == file) and bool(file == g)
+
+    err = lambda e: [{"name": "<%s>" % type(e).__name__, "A": {"t": 0, "v": []}, "M": []}]  # noqa: E731
+    ev = {"kind": "file", "cin": cin, "reps": reps, "hist": [], "cout": [], "eq": False,
+          "hist2": [], "cout2": [], "eq2": False}
+    try:
+        ev["hist"] = accesses(f)
+        g, ev["cout"], ev["eq"] = written(f)
     except Exception as e:  # noqa: BLE001
-        cout, eq = [{"name": "<%s>" % type(e).__name__, "A": {"t": 0, "v": []}, "M": []}], False
-    return {"kind": "file", "cin": cin, "cout": cout, "eq": eq}
+        ev["cout"] = ev["cout2"] = err(e)
+        return ev
+    try:
+        ev["hist2"] = accesses(g)
+        _h, ev["cout2"], ev["eq2"] = written(g)
+    except Exception as e:  # noqa: BLE001
+        ev["cout2"] = err(e)
+    return ev
 
 
 # --------------------------------------------------------------------------- classification / replay
+ALL_REPS = {"native", "swapped", "strided", "reversed", "readonly", "unaligned", "foreign", "wide", "list"}
 KB2FINDING = {"FixedPointUnchecked": "C05-fixedpoint-unchecked", "IntervalUnchecked": "C05-interval-unchecked",
+              "DeltaUint64Promoted": "C05-delta-uint64-promoted",
               "CompressFloatUnchecked": "C05-compress-float-unchecked",
               "CompressDecimalsUnbounded": "C05-compress-decimals-unbounded",
               "CompressFactorUnserialisable": "C05-compress-factor-unserialisable",
@@ -702,20 +899,26 @@ def classify(mm):
     for k in ("CompressFloatUnchecked", "FixedPointUnchecked", "IntervalUnchecked"):
         if k in kb:
             return KB2FINDING[k]
+    if kb == ["DeltaUint64Promoted"] and mm.get("rep") == "wide" and mm.get("expected", {}).get("oc") == "ok":
+        return KB2FINDING[kb[0]]
     return None
 
 
 def replay(record):
     if record.get("kind") == "case" or (record.get("kind") == "event" and record.get("ekind") == "chain"):
-        r = run_chain(record["A"], record["chain"])
+        r = run_chain(record["A"], record["chain"], record.get("rep", "native"))
         exp = record["expected"]["oc"]
         return {"observed": r, "expected": record["expected"],
                 "mismatch": (r["oc"] != exp) or (exp == "ok" and record.get("kind") == "event")}
     if record.get("kind") == "event" and record.get("ekind") == "compress":
-        r = run_compress(record["A"], record["T"])
+        r = run_compress(record["A"], record["T"], record.get("rep", "native"))
         return {"observed": r, "input": record["A"], "mismatch": r["B"] != record["A"]}
+    if record.get("kind") == "column":
+        r = run_column(record["col"], record["hist"])
+        return {"observed": r, "expected": record["expected"],
+                "mismatch": r["mem"] != record["expected"] or r["file"] != record["expected"]}
     if record.get("kind") == "event" and record.get("ekind") == "compressx":
-        r = run_compress_sci(record["A"], record["T"])
+        r = run_compress_sci(record["A"], record["T"], record.get("rep", "native"))
         return {"observed": r, "input": record["A"], "recorded": {k: record.get(k) for k in ("oc", "B", "packed")},
                 "mismatch": r["oc"] != "ok" or r["packed"] != "ok" or r["B"] == record.get("B")}
     return {"error": "record kind not replayable", "record": record}
@@ -777,14 +980,22 @@ def run(ctx):
         raise Vacuity(f"outcomes / recorded classes not all enumerated: {per_exp} {per_kb}")
     if not {"BA", "FP", "IQ", "RL", "DE", "IP", "SA"} <= set(per_kind):
         raise Vacuity(f"encoding kinds not all enumerated: {per_kind}")
-    cases = [{k: s[k] for k in ("chain", "arr", "exp", "acc", "kb", "form")} for s in done]
+    cases = [{k: s[k] for k in ("chain", "arr", "exp", "acc", "kb", "form", "reps", "kbrep")} for s in done]
     ctx.rng.shuffle(cases)
-    items = [{"cases": c} for c in helpers.chunked(cases, 150)]
+    items = [{"cases": c} for c in helpers.chunked(cases, 60)]
     results = helpers.run_pool(ctx, "harness.drivers.c05:exec_cases", items, stage="S2")
     n = sum(r.get("n", 0) for r in results)
     ctx.traces_validated += n
     ctx.evaluations += n
     ctx.cov["s2_cases_executed"] = n
+    # every case is executed under every memory representation the specification lists for its array (reps)
+    per_rep = {}
+    for r in results:
+        for k, v in r.get("per_rep", {}).items():
+            per_rep[k] = per_rep.get(k, 0) + v
+    ctx.cov["s2_executions_per_representation"] = per_rep
+    if set(per_rep) != ALL_REPS or n != sum(len(c["reps"]) for c in cases):
+        raise Vacuity(f"S2: not every memory representation was executed: {per_rep}")
     ctx.cov["s2_encoded_bytes_differ_from_model"] = sum(r.get("formdiff", 0) for r in results)
     ctx.cov["s2_filled_parameters_differ_from_model"] = sum(r.get("paramdiff", 0) for r in results)
     for key, what in (("s2_encoded_bytes_differ_from_model", "encoded bytes"),
@@ -855,7 +1066,20 @@ def run(ctx):
     ctx.cov["compress_model_classes"] = classes
     if min(classes.values()) == 0:
         raise Vacuity(f"MCCompress: a class of the float branch is not enumerated: {classes}")
-    ccases = [{k: s[k] for k in ("fam", "arr", "tol")} for s in cdone]
+    # memory representations: the native one and (quick) two more of the case's reps, drawn with the seed / (thorough) all
+    ccases = [{k: s[k] for k in ("fam", "arr", "tol", "reps")} for s in cdone]
+    for c in ccases:
+        if "native" not in c["reps"]:
+            raise Vacuity("MCCompress: a case without the native representation")
+        others = [r for r in c["reps"] if r != "native"]
+        c["reps"] = ["native"] + (sorted(ctx.rng.sample(others, 2)) if quick else others)
+    crep = {}
+    for c in ccases:
+        for r in c["reps"]:
+            crep[r] = crep.get(r, 0) + 1
+    ctx.cov["s2_compress_executions_per_representation"] = crep
+    if not ALL_REPS <= set(crep):
+        raise Vacuity(f"S2 compress: memory representations not all executed: {crep}")
     ctx.rng.shuffle(ccases)
     citems = [{"cases": c} for c in helpers.chunked(ccases, 40)]
     s2traces = []
@@ -865,13 +1089,48 @@ def run(ctx):
         if "crash" in r:
             ctx.mismatch({"stage": "S2", "kind": "crash", "signal": r["crash"], "progress": r.get("progress"),
                           "item": it})
-        elif len(r["events"]) != len(it["cases"]):
+        elif len(r["events"]) != sum(len(c["reps"]) for c in it["cases"]):
             raise RuntimeError("S2 compress: an enumerated case was not executed")
         else:
             s2traces.append(r["events"])
     ctx.cov["s2_compress_cases_executed"] = sum(len(t) for t in s2traces)
     ctx.nontrivial += sum(1 for s in cdone if len(s["arr"]["v"]) >= 2)
     ctx.sample({"s2_compress_case": ccases[0]})
+
+    # ================================================================= columns with histories of read accesses
+    res, states = helpers.dump_states(ctx, "MCColumn", "MCCol.cfg" if quick else "MCCol_thorough.cfg", stage="S1",
+                                      workers=12, timeout=2400)
+    hdone = [s for s in states if s["done"]]
+    if not hdone or 2 * len(hdone) != res.distinct:
+        raise RuntimeError(f"MCColumn: {len(hdone)} evaluated states of {res.distinct}")
+    per_hsit, per_len = {}, {}
+    for s in hdone:
+        per_len[len(s["hist"])] = per_len.get(len(s["hist"]), 0) + 1
+        for k in s["sit"]:
+            per_hsit[k] = per_hsit.get(k, 0) + 1
+    ctx.cov["column_cases"] = len(hdone)
+    ctx.cov["column_cases_per_history_length"] = per_len
+    ctx.cov["column_cases_per_situation"] = per_hsit
+    if not {"PlaceholderIntoStoredDtype", "PlaceholderIntoOtherDtype", "AccessWithoutWrite"} <= set(per_hsit) \
+            or len(per_len) < 3:
+        raise Vacuity(f"MCColumn: situations / history lengths not all enumerated: {per_hsit} {per_len}")
+    hcases = [{k: s[k] for k in ("col", "hist", "exp", "sit")} for s in hdone]
+    ctx.rng.shuffle(hcases)
+    hres = helpers.run_pool(ctx, "harness.drivers.c05:exec_column_cases",
+                            [{"cases": c} for c in helpers.chunked(hcases, 150)], stage="S2")
+    nh = sum(r.get("n", 0) for r in hres)
+    hocs = {}
+    for r in hres:
+        for k, v in r.get("ocs", {}).items():
+            hocs[k] = hocs.get(k, 0) + v
+    ctx.cov["column_cases_executed"] = nh
+    ctx.cov["column_access_outcomes"] = hocs
+    if nh != len(hcases) or any(f"{op}:ok" not in hocs for op in ("as_array", "as_item", "serialize", "compress", "write")):
+        raise Vacuity(f"S2 columns: an access never succeeded / cases not executed: {nh} of {len(hcases)}, {hocs}")
+    ctx.traces_validated += nh
+    ctx.evaluations += nh
+    ctx.nontrivial += sum(1 for s in hdone if s["hist"] and s["col"]["m"] and any(s["col"]["m"][0]))
+    ctx.sample({"s2_column_case": hcases[0]})
 
     # ================================================================= S3
     ntr = 32 if quick else 1000
@@ -959,7 +1218,8 @@ def run(ctx):
         e = traces[tid - 1][l - 1]
         rec = {"stage": "S2" if tid <= n_s2 else "S3", "kind": "event", "ekind": e["kind"],
                "tlc_known": verdict == "known", "kb": kb, "expected": {"oc": exp}, "trace": tid, "event": l}
-        for k in ("A", "chain", "T", "B", "oc", "cin", "cout", "eq", "hasFP", "d", "packed"):
+        for k in ("A", "chain", "T", "rep", "B", "oc", "cin", "reps", "hist", "cout", "eq", "hist2", "cout2", "eq2",
+                  "hasFP", "d", "packed"):
             if k in e:
                 rec[k] = e[k]
         ctx.mismatch(rec)
